@@ -33,3 +33,31 @@ PROPS['C16'] = dict(
         O('C16.contains_wrong_kind', 'harness.c16_contains', 'contains_wrong_kind', 120, 600,
           'type-incompatible candidates are rejected (False)'),
     ])
+
+PROPS['C10'] = dict(
+    level='model_checking',
+    encoded=['common.Namespace.encode/decode/__init__/__add__/__getitem__/startswith', 'common._parse'],
+    bounds='namespaces of 0..3 components, component length <= 1..4 depending on the obligation, all unicode code points',
+    outside='longer components / more components',
+    obligations=[
+        O('C10.ns_roundtrip_1x4', 'harness.c10_codec', 'ns_roundtrip_1x4', 90, 600,
+          'decode(encode(ns)) == ns', '0..1 components, len <= 4'),
+        O('C10.ns_roundtrip_2x2', 'harness.c10_codec', 'ns_roundtrip_2x2', 90, 600,
+          'decode(encode(ns)) == ns', '2 components, len <= 2'),
+        O('C10.ns_roundtrip_3x1', 'harness.c10_codec', 'ns_roundtrip_3x1', 90, 600,
+          'decode(encode(ns)) == ns', '3 components, len <= 1'),
+        O('C10.ns_roundtrip_3x2', 'harness.c10_codec', 'ns_roundtrip_3x2', None, 1500,
+          'decode(encode(ns)) == ns', '3 components, len <= 2'),
+        O('C10.ns_roundtrip_2x3', 'harness.c10_codec', 'ns_roundtrip_2x3', None, 1500,
+          'decode(encode(ns)) == ns', '2 components, len <= 3'),
+        O('C10.ns_injective_1v1', 'harness.c10_codec', 'ns_injective_1v1', 90, 600,
+          'distinct tuples -> distinct encodings', '1 vs 1 component, len <= 2'),
+        O('C10.ns_injective_2v1', 'harness.c10_codec', 'ns_injective_2v1', 120, 900,
+          'distinct tuples -> distinct encodings', '2 components (len <= 1) vs 1 component (len <= 3)'),
+        O('C10.ns_injective_mixed', 'harness.c10_codec', 'ns_injective_mixed', 120, 900,
+          'distinct tuples -> distinct encodings', '0..2 vs 0..2 components, len <= 1'),
+        O('C10.ns_injective_2v2', 'harness.c10_codec', 'ns_injective_2v2', None, 2400,
+          'distinct tuples -> distinct encodings', '2 vs 2 components, len <= 2'),
+        O('C10.ns_sequence', 'harness.c10_codec', 'ns_sequence', 60, 300,
+          'Namespace(tuple(ns)) == ns, len, +, slicing, startswith'),
+    ])
